@@ -185,7 +185,39 @@ def install_fixpoint_monitor():
         ca.CONSISTENCY_ALG_FCTS[k] = wrap(ca.CONSISTENCY_ALG_FCTS[k])
 
 
+OBS = dict(depth=0, calls=0, entailed=0, failed=0)
+
+
+def install_stats_monitor():
+    """C17: observe what actually happens (propagator executions and their outcomes, deepest stack level) to compare with the statistics"""
+    from nucs.propagators.propagators import COMPUTE_DOMAINS_FCTS
+    from nucs.heuristics.heuristics import DOM_HEURISTIC_FCTS
+
+    def wrap_prop(f):
+        def g(domains, parameters):
+            r = f(domains, parameters)
+            OBS["calls"] += 1
+            OBS["entailed"] += int(r == PROP_ENTAILMENT)
+            OBS["failed"] += int(r == PROP_INCONSISTENCY)
+            return r
+        return g
+
+    def wrap_heur(f):
+        def g(params, shr_domains_stack, not_entailed_propagators_stack, dom_update_stack, stacks_top, dom_idx):
+            r = f(params, shr_domains_stack, not_entailed_propagators_stack, dom_update_stack, stacks_top, dom_idx)
+            OBS["depth"] = max(OBS["depth"], int(stacks_top[0]))
+            return r
+        return g
+
+    for k in range(len(COMPUTE_DOMAINS_FCTS)):
+        COMPUTE_DOMAINS_FCTS[k] = wrap_prop(COMPUTE_DOMAINS_FCTS[k])
+    for k in range(len(DOM_HEURISTIC_FCTS)):
+        DOM_HEURISTIC_FCTS[k] = wrap_heur(DOM_HEURISTIC_FCTS[k])
+
+
 def run(arg, pid, tier, seed):
+    if pid == "C17":
+        install_stats_monitor()
     if pid == "C08":
         install_fixpoint_monitor()
     rng = random.Random(seed * 7919 + 17)
@@ -214,6 +246,7 @@ def run(arg, pid, tier, seed):
         cfgs = CONFIGS if pid in ("C02", "C01", "C10", "C04", "C08") else CONFIGS[:: 5]
         for cfg in cfgs:
             ev += 1
+            OBS.update(depth=0, calls=0, entailed=0, failed=0)
             try:
                 s = solver(pb, cfg)
                 got = guarded(lambda: sols(s))
@@ -242,6 +275,14 @@ def run(arg, pid, tier, seed):
                     report("C17." + b.split()[0], pb, cfg, b)
                 if st["SOLVER_SOLUTION_NB"] != len(got):
                     report("C17.solutions", pb, cfg, f"SOLUTION_NB {st['SOLVER_SOLUTION_NB']} != delivered {len(got)}")
+                if st["PROPAGATOR_FILTER_NB"] != OBS["calls"]:
+                    report("C17.filter", pb, cfg, f"FILTER_NB {st['PROPAGATOR_FILTER_NB']} != {OBS['calls']} constraint executions")
+                if st["PROPAGATOR_ENTAILMENT_NB"] != OBS["entailed"]:
+                    report("C17.entailment", pb, cfg, f"ENTAILMENT_NB {st['PROPAGATOR_ENTAILMENT_NB']} != {OBS['entailed']} executions answering entailed")
+                if st["PROPAGATOR_INCONSISTENCY_NB"] < OBS["failed"] or (OBS["failed"] == 0 and cfg[0] == CONSISTENCY_ALG_BC and st["PROPAGATOR_INCONSISTENCY_NB"] > st["SOLVER_BACKTRACK_NB"] + 1):
+                    report("C17.inconsistency", pb, cfg, f"INCONSISTENCY_NB {st['PROPAGATOR_INCONSISTENCY_NB']} vs {OBS['failed']} executions answering inconsistent")
+                if st["SOLVER_CHOICE_DEPTH"] != OBS["depth"]:
+                    report("C17.depth", pb, cfg, f"CHOICE_DEPTH {st['SOLVER_CHOICE_DEPTH']} != deepest stack level reached {OBS['depth']}")
             if pid == "C10" and int(s.stacks_top[0]) != 0:
                 report("C10.height", pb, cfg, f"stack height {int(s.stacks_top[0])} after exhaustive enumeration")
         if pid == "C03":
